@@ -1922,6 +1922,11 @@ def inline_helpers(raw_by_path, known, max_rounds=6):
 _VARIANT_INDEX = {'Ok': 0, 'Err': 1, 'None': 0, 'Some': 1, 'Continue': 0, 'Break': 1}
 
 
+def _is_from_residual(t):
+    f = t['func']
+    return f.get('k') == 'const' and 'fn' in f and f['fn']['path'].endswith('FromResidual::from_residual') and 'result::Result<' in f['fn'].get('full', '')
+
+
 def _is_try_branch(t):
     if t['k'] != 'call':
         return False
@@ -1942,7 +1947,8 @@ def thread_known_variants(raw, max_chain=8, max_rounds=40):
             for tgt in _targets_of(t):
                 npred[tgt] = npred.get(tgt, 0) + 1
         for pi, P in enumerate(blocks):
-            if P.get('cleanup') or P['term']['k'] not in ('goto', 'drop'):
+            is_fr = P['term']['k'] == 'call' and _is_from_residual(P['term']) and not P['term']['dest']['p'] and P['term'].get('target') is not None
+            if P.get('cleanup') or (P['term']['k'] not in ('goto', 'drop') and not is_fr):
                 continue
             # last whole-local aggregate assignment of an enum variant in P
             known = {}
@@ -1956,6 +1962,9 @@ def thread_known_variants(raw, max_chain=8, max_rounds=40):
                         known[s['place']['l']] = known[rv['op']['place']['l']]
                     else:
                         known.pop(s['place']['l'], None)
+            if is_fr:
+                # `return Err(From::from(e))` of an inlined helper: the value is an Err whatever its payload
+                known = {P['term']['dest']['l']: ('Err', None, None)}
             if not known:
                 continue
             chain = []
@@ -2006,7 +2015,11 @@ def thread_known_variants(raw, max_chain=8, max_rounds=40):
                         # residual = the Err/None value itself (Result<Infallible, E> / Option<Infallible>)
                         tmp = len(raw['locals'])
                         raw['locals'].append({'ty': 'residual'})
-                        st1 = {'k': 'assign', 'place': {'l': tmp, 'p': [], 'ty': 'residual'}, 'span': span, 'rv': dict(rv0)}
+                        if rv0 is None:
+                            rv1 = {'k': 'use', 'op': {'k': 'move', 'place': dict(t['args'][0]['place'])}}
+                        else:
+                            rv1 = dict(rv0)
+                        st1 = {'k': 'assign', 'place': {'l': tmp, 'p': [], 'ty': 'residual'}, 'span': span, 'rv': rv1}
                         st2 = {'k': 'assign', 'place': t['dest'], 'span': span,
                                'rv': {'k': 'aggr', 'akind': 'adt', 'adt': 'std::ops::ControlFlow', 'adt_full': 'std::ops::ControlFlow', 'variant': 'Break',
                                       'fields': ['0'], 'ops': [{'k': 'move', 'place': {'l': tmp, 'p': [], 'ty': 'residual'}}]}}
